@@ -475,6 +475,17 @@ theorem scan_end_to_end (str : List Nat) (base0 : Nat) (hb : base0 ≤ 36) (bits
       (∀ k, k ≤ infBits → dval mag < dval k → (denote str base0).absVal < dval k) :=
   scan_end_to_end_q str base0 hb bits h
 
+/-- ★ `integer_read_exact`: every accepted text that denotes an INTEGER `M·b^E` (E ≥ 0, any radix) with 0 < value ≤ 2^53
+    is read as exactly that integer (consequence of `scan_end_to_end` (1) and `int_representable`: all such integers are
+    doubles) — the reading counterpart of `int_print_exact_to_2p53`. -/
+theorem integer_read_exact (str : List Nat) (base0 : Nat) (hb : base0 ≤ 36) (bits : Nat)
+    (h : scanNumberBaseW str base0 = some bits) (hE : 0 ≤ (denote str base0).E)
+    (h0 : 0 < (denote str base0).M * (denote str base0).b ^ (denote str base0).E.toNat)
+    (h53 : (denote str base0).M * (denote str base0).b ^ (denote str base0).E.toNat ≤ 2 ^ 53) :
+    ∃ mag, bits = withSign (denote str base0).neg mag ∧
+      dval mag = (((denote str base0).M * (denote str base0).b ^ (denote str base0).E.toNat : Nat) : ℚ) :=
+  integer_read_exact_q str base0 hb bits h hE h0 h53
+
 /-- non-vacuity / sanity of the rational reading: "0x1.8p3" is accepted, denotes 24·2^−1 = 12 and the result 0x4028… has
     rational value 12; "1e400" denotes 10^400 and reads as +inf (value 2^1024 in `dval`) -/
 example : scanNumberBaseW [48, 120, 49, 46, 56, 112, 51] 0 = some 0x4028000000000000 := by decide +kernel
